@@ -13,7 +13,7 @@ MODEL of the code (Kap/Model/C18.lean, tied to /repo by the correspondence run) 
     the end of a component, below the scanner's token limit) — given the external line-protocol law `LPLaw`;
   * for batches: for EVERY list of batches, relative to the input rewritten by exactly the three recorded deviations.
 -/
-import Kap.Proofs.C18
+import Kap.Proofs.C18Frame
 namespace Kap.Props.C18
 open Kap.C18
 
@@ -22,31 +22,41 @@ def exF0 : FloatCodec := { fmt := fun _ => [], parse := fun _ => none }
 
 /-! ### Stream framing (`WritePointForRecording` / `readPointsFromIO`'s Scanner loop) -/
 
-/-- **framing_roundtrip (⇐)**: frames with clean components are read back exactly, without error. -/
+/-- **framing_roundtrip** (reader since c988361): frames whose database and retention policy are clean (no line
+feed, no trailing carriage return, below the Scanner limit) and whose line has line feeds only INSIDE quoted field
+values (`lpClosed`: the state machine of `scanLineProtocolLine` ends outside quotes and meets no unquoted line feed)
+are read back exactly, without error — for every list of frames. -/
 theorem framing_roundtrip (fs : List Frame) (h : ∀ f ∈ fs, f.clean) :
     readFrames maxTok (writeFrames fs) = (fs, true) :=
   readFrames_writeFrames fs h
 
-/-- **framing_roundtrip (⇔)**: a stream recording reads back as exactly the frames that were written, without error,
-IF AND ONLY IF every component (database, retention policy, line) is clean: no line feed, no carriage return at its
-end, shorter than the Scanner's token limit (64 MiB since 45d6388). (⇒ by counting lines: every line feed inside a component adds a
-line, so the reader cannot come back with the same number of frames.) -/
-theorem framing_roundtrip_iff (fs : List Frame) :
-    readFrames maxTok (writeFrames fs) = (fs, true) ↔ ∀ f ∈ fs, f.clean :=
-  ⟨readFrames_writeFrames_inv fs, readFrames_writeFrames fs⟩
+/-- **The snapshot's framing (before c988361), characterised exactly**: with plain line splitting for all three
+lines the recording read back as written IF AND ONLY IF no component had any line feed (nor a trailing carriage
+return, nor reached the limit) — so every string field value with a line feed broke it. Both directions, all frame
+lists (⇒ by counting lines). -/
+theorem framing_roundtrip_iff_before_fix (fs : List Frame) :
+    readFramesOld maxTok (writeFrames fs) = (fs, true) ↔ ∀ f ∈ fs, f.cleanOld :=
+  ⟨readFramesOld_writeFrames_inv fs, readFramesOld_writeFrames fs⟩
 
-/-- Counterexample (finding `stream-newline-framing`): a line feed inside the line (a string field `s="a\nb"`)
-splits the record: the reader sees 4 lines, i.e. one frame with a truncated line and an incomplete second frame. -/
-theorem framing_newline_breaks :
-    ∃ f : Frame, readFrames maxTok (writeFrames [f]) ≠ ([f], true) ∧
-      readFrames maxTok (writeFrames [f]) = ([⟨f.db, f.rp, [109, 32, 115, 61, 34, 97]⟩], false) :=
+/-- Witness of the defect repaired by c988361: the line `m s="a\nb" 1` (a string field with a line feed). The
+snapshot's reader sees 4 lines — a frame with a truncated line and an incomplete second frame; the reader since the
+fix returns the frame. -/
+theorem framing_newline_in_string_field :
+    ∃ f : Frame, readFramesOld maxTok (writeFrames [f]) = ([⟨f.db, f.rp, [109, 32, 115, 61, 34, 97]⟩], false) ∧
+      readFrames maxTok (writeFrames [f]) = ([f], true) :=
   ⟨⟨[100], [114], [109, 32, 115, 61, 34, 97, 10, 98, 34, 32, 49]⟩, by decide, by decide⟩
 
-/-- Counterexample: a line feed in the database name shifts every following component by one line and the
-reader silently delivers a frame with the wrong database, retention policy and line. -/
+/-- Counterexample (finding `stream-newline-framing`, still true): a line feed in the database name shifts every
+following component by one line and the reader delivers frames with the wrong database, retention policy and line. -/
 theorem framing_newline_in_db_reframes :
     readFrames maxTok (writeFrames [⟨[97, 10, 98], [114], [109, 32, 118, 61, 49, 32, 53]⟩, ⟨[100], [114], [109, 32, 118, 61, 50, 32, 54]⟩]) =
       ([⟨[97], [98], [114]⟩, ⟨[109, 32, 118, 61, 49, 32, 53], [100], [114]⟩], false) := by
+  decide
+
+/-- Counterexample: a line feed in a TAG value (unquoted part of the line) still breaks the record. -/
+theorem framing_newline_in_tag_breaks :
+    readFrames maxTok (writeFrames [⟨[100], [114], [109, 44, 107, 61, 97, 10, 98, 32, 118, 61, 49, 32, 53]⟩]) =
+      ([⟨[100], [114], [109, 44, 107, 61, 97]⟩], false) := by
   decide
 
 /-- Counterexample: a carriage return at the end of the database name is dropped by the Scanner. -/
@@ -55,21 +65,14 @@ theorem framing_trailing_cr_dropped :
   decide
 
 /-- Counterexample for the snapshot's Scanner limit (64 KiB, repaired by 45d6388): a record whose line has 65536
-bytes or more stops the scan with `ErrTooLong`; the reader delivers nothing of it and reports an error. With the
-limit of the repaired code (64 MiB) the same record is scanned. -/
+bytes or more stops the scan with `ErrTooLong`; the reader delivers nothing of it and reports an error. -/
 theorem scanner_limit_before_fix (db rp line : Bytes) (hdb : db.length < 65536) (hrp : rp.length < 65536)
-    (h : 65536 ≤ line.length) (h' : line.length < maxTok) :
-    (frames (scanLines maxTokOld [db, rp, line]).1 (scanLines maxTokOld [db, rp, line]).2 = ([], false)) ∧
-    (frames (scanLines maxTok [db, rp, line]).1 (scanLines maxTok [db, rp, line]).2 = ([⟨dropCR db, dropCR rp, dropCR line⟩], true)) := by
+    (h : 65536 ≤ line.length) :
+    frames (scanLines maxTokOld [db, rp, line]).1 (scanLines maxTokOld [db, rp, line]).2 = ([], false) := by
   have a1 : ¬ db.length ≥ maxTokOld := by unfold maxTokOld; omega
   have a2 : ¬ rp.length ≥ maxTokOld := by unfold maxTokOld; omega
   have a3 : line.length ≥ maxTokOld := by unfold maxTokOld; omega
-  have b1 : ¬ db.length ≥ maxTok := by unfold maxTok; omega
-  have b2 : ¬ rp.length ≥ maxTok := by unfold maxTok; omega
-  have b3 : ¬ line.length ≥ maxTok := by omega
-  constructor
-  · simp [scanLines, a1, a2, a3, frames]
-  · simp [scanLines, b1, b2, b3, frames]
+  simp [scanLines, a1, a2, a3, frames]
 
 /-! ### Stream record → replay -/
 
@@ -147,22 +150,11 @@ theorem backslash_name_not_representable :
   decide
 
 /-- A line feed reaches the recorded line only from the point's own strings (measurement, tag keys/values, field
-keys, string field values): the escaping functions never add or remove one, numbers and booleans have none. So the
-clause of finding `stream-newline-framing` (`SPoint.dirty`) is stated on the POINT, not on the encoded bytes. -/
-theorem line_clean_of_point (F : FloatCodec) (mult : Int) (p : SPoint) (hF : FloatTextClean F p)
-    (hd : p.dirty = false) : NL ∉ lineOf F mult p ∧ (lineOf F mult p).getLast? ≠ some CR :=
-  ⟨line_newline_free F mult p hF hd, line_last_not_CR F mult p⟩
-
-/-- **Stream replay is faithful, stated on the points**: for every list of points to none of which the finding's
-clause applies (no line feed in any string of the point, no carriage return at the end of db/rp) and whose lines fit
-the Scanner, in both clock modes, for every clock zero — given the external line-protocol law. -/
-theorem stream_replay_faithful_points (F : FloatCodec) (zero : Int) (recTime : Bool) (ps : List SPoint)
-    (G : List (Bytes × Bool × List Bytes))
-    (hlaw : LPLaw F 1 ps)
-    (hpts : ∀ p ∈ ps, FloatTextClean F p ∧ p.dirty = false ∧ FitsScanner F 1 p) :
-    specStream recTime ps G (sObs (streamRoundTrip F 1 zero recTime ps) G) = none :=
-  stream_replay_faithful F zero recTime ps G hlaw
-    (fun p hp => frame_clean_of_point F 1 p (hpts p hp).1 (hpts p hp).2.1 (hpts p hp).2.2)
+keys, string field values): the escaping functions never add or remove one, numbers and booleans have none. -/
+theorem line_newline_only_from_point (F : FloatCodec) (mult : Int) (p : SPoint) (hF : FloatTextClean F p)
+    (hd : p.dirty = false) (hstr : p.fields.any (fun kv => kv.2.hasNL) = false) :
+    NL ∉ lineOf F mult p ∧ (lineOf F mult p).getLast? ≠ some CR :=
+  ⟨line_newline_free F mult p hF hd hstr, line_last_not_CR F mult p⟩
 
 /-! Non-vacuity: the hypotheses of `stream_replay_faithful` hold of concrete awkward points — database `my db`,
 measurement `a,b c`, tag `k=1`=`v 2`, fields: float 1.5, int 2^53+1, string `q"\, x=é`, bool — with the model's own
@@ -180,12 +172,11 @@ def exP1 : SPoint :=
 
 def exP2 : SPoint := ⟨[100], [114], [109], [], [([118], .int (-7))], 1500000000000000005⟩
 
+set_option maxRecDepth 8000 in
 example : LPLaw exF 1 [exP1, exP2] ∧ (∀ p ∈ [exP1, exP2], (frameOf exF 1 p).clean) := by
   unfold LPLaw; decide
 
-example : ∀ p ∈ [exP1, exP2], p.dirty = false ∧ FitsScanner exF 1 p := by
-  unfold FitsScanner; decide
-
+set_option maxRecDepth 8000 in
 example : specStream false [exP1, exP2] [] (sObs (streamRoundTrip exF 1 42 false [exP1, exP2]) []) = none ∧
     ((streamRoundTrip exF 1 42 false [exP1, exP2]).items.map (·.p.time)) = [42, 47] := by
   decide
